@@ -6,8 +6,8 @@ CONSTANTS
   MaxSamples = 3
   MaxCalls = 3
   Correlated = TRUE
-  AnsOpts = {"a0", "a13", "a12", "a1", "a1f", "a1p", "a1t"}
-  CmpReturns = {"T", "F", "P", "d0", "d13", "d12", "d1", "d12m"}
+  AnsOpts = {"a0", "a13", "a12", "a1", "a1f", "a1p", "a12f"}
+  CmpReturns = {"T", "F", "P", "d0", "d13", "d12m", "Es", "Et", "Ea"}
   LeafAns = {}
   LeafCmp = {}
   TableGrades = {}
@@ -17,6 +17,7 @@ CONSTANTS
   TableOnly = {"g1212"}
   OkRecomputed = TRUE
 INVARIANT InvStage
+INVARIANT InvRaisedNoVerdict
 INVARIANT InvGradesInUnit
 INVARIANT InvStaleOk
 INVARIANT InvStripped
